@@ -4,6 +4,7 @@ package main
 // *types.Func objects, and creates verification units (functions and function literals).
 
 import (
+	"sync"
 	"fmt"
 	"go/ast"
 	"go/token"
@@ -22,6 +23,7 @@ type fnInfo struct {
 }
 
 type Engine struct {
+	oncallHit sync.Map // *Clause -> true: oncall clauses that matched at least one call site
 	fset      *token.FileSet
 	pkgs      []*packages.Package
 	root      *packages.Package // github.com/folbricht/desync
